@@ -404,7 +404,7 @@ fn alter_nodes(ns: &mut Vec<Node>, r: &mut Rng, protect_len_below: usize) -> Opt
 /// one single-field alteration of a proof; returns its kind
 pub fn alter(p: &Proof, other: Option<&Proof>, r: &mut Rng) -> Option<(Proof, &'static str)> {
     let mut q = p.clone();
-    let kind: Option<&'static str> = match r.below(16) {
+    let kind: Option<&'static str> = match r.below(19) {
         0 => q.block.as_mut().and_then(|b| if flip(&mut b.value, r) { Some("value-flip") } else { b.value.push(7); Some("value-extend") }),
         1 => q.block.as_mut().map(|b| { if b.value.is_empty() { b.value.push(0) } else { b.value.pop(); } "value-length" }),
         2 => q.block.as_mut().map(|b| { bump(&mut b.index, r); "block-index" }),
@@ -424,6 +424,16 @@ pub fn alter(p: &Proof, other: Option<&Proof>, r: &mut Rng) -> Option<(Proof, &'
             2 if q.seek.is_some() => { q.seek = None; Some("remove-seek") }
             3 if q.hash.is_some() => { q.hash = None; Some("remove-hash") }
             _ => None },
+        16 | 17 | 18 => {
+            // a section the honest proof does not have, empty or with arbitrary content
+            let nodes = |r: &mut Rng| -> Vec<Node> { (0..r.below(3)).map(|_| Node::new(r.below(40), r.bytes(32), r.below(20))).collect() };
+            match r.below(4) {
+                0 if q.seek.is_none() => { q.seek = Some(hypercore::DataSeek { bytes: *r.pick(&[0u64, 1, 5, 1 << 20]), nodes: nodes(r) }); Some("add-seek") }
+                1 if q.hash.is_none() => { q.hash = Some(hypercore::DataHash { index: r.below(40), nodes: nodes(r) }); Some("add-hash") }
+                2 if q.block.is_none() => { q.block = Some(hypercore::DataBlock { index: r.below(20), value: r.bytes(3), nodes: nodes(r) }); Some("add-block") }
+                3 if q.upgrade.is_none() => { q.upgrade = Some(hypercore::DataUpgrade { start: r.below(10), length: r.below(10), nodes: nodes(r), additional_nodes: nodes(r), signature: r.bytes(64) }); Some("add-upgrade") }
+                _ => None }
+        }
         14 => match (q.upgrade.as_mut(), other.and_then(|o| o.upgrade.as_ref())) { (Some(u), Some(o)) => { u.signature = o.signature.clone(); Some("signature-other-key-or-length") } _ => None },
         _ => q.upgrade.as_mut().map(|u| { u.length = 0; u.nodes.clear(); u.additional_nodes.clear(); "upgrade-empty" }),
     };
@@ -442,7 +452,12 @@ pub fn adversarial_histories(seed: u64, n: usize, max_len: u64, requests_only: b
         c.run("new X 9d61b19deffd5a60ba844af492ec2cc44449c5697b326919703bac031cae7f60".to_string());
         c.run("newr R W".into());
         let wl = match hi % 5 { 0 => 0, 1 => 1, _ => r.range(2, max_len) };
-        for _ in 0..wl { c.run(format!("append W {}", hex(&gen_block(&mut r, false)))); c.run(format!("append X {}", hex(&gen_block(&mut r, false)))); }
+        // every fifth history: mostly empty blocks (roots whose subtree holds no bytes)
+        let empties = hi % 5 == 4;
+        for _ in 0..wl {
+            let b = if empties && r.chance(3, 5) { vec![] } else { gen_block(&mut r, false) };
+            c.run(format!("append W {}", hex(&b))); c.run(format!("append X {}", hex(&gen_block(&mut r, false))));
+        }
         if wl > 2 && r.chance(1, 3) { let s = r.below(wl); c.run(format!("clear W {s} {}", s + 1)); }
         let rounds = r.range(2, 7);
         for _ in 0..rounds {
